@@ -46,10 +46,12 @@ theorem C11_int_type_region (decimal : Bool) (s : Suffix) (v : BitVec 64) :
   by_cases h63 : v.toNat < 2 ^ 63
   · have h64 : v.toNat < 2 ^ 64 := hv
     cases decimal <;> cases s <;>
-      simp [litType, candidates, IntType.represents, IntType.isSigned, IntType.bits, Suffix.hasU, h63, h64, hv] <;> omega
+      simp [litType, candidates, IntType.represents, IntType.isSigned, IntType.bits, Suffix.hasU, h63, h64] <;> omega
   · have n63 : v.toNat ≥ 2 ^ 63 := by omega
+    have n31 : ¬ v.toNat < 2 ^ 31 := by omega
+    have n32 : ¬ v.toNat < 2 ^ 32 := by omega
     cases decimal <;> cases s <;>
-      simp [litType, candidates, IntType.represents, IntType.isSigned, IntType.bits, Suffix.hasU, h63, n63, hv] <;> omega
+      simp [litType, candidates, IntType.represents, IntType.isSigned, IntType.bits, Suffix.hasU, h63, n63, n31, n32, hv]
 
 /-- what chibicc does in that region: the constant silently gets type `long` (its value is
     then negative; gcc gives `__int128` or warns) — excluded from C11_int_type, stated here -/
